@@ -93,6 +93,8 @@ int gf_invert_matrix(unsigned char *in, unsigned char *out, const int n)
     if (isal_stub_ctl.fail_invert_at > 0 && --isal_stub_ctl.fail_invert_at == 0) {
         isal_stub_ctl.n_invert_failed_injected++;   /* only in sequential plans */
         if (isal_stub_ctl.clobber_input) memset(in, 0xA5, (size_t) n * n);
+        /* the output of a failed inversion is unspecified: a real elimination has written part of it by then */
+        for (i = 0; i < n * n; i++) out[i] = (unsigned char) (0x3c ^ (i * 29));
         return -1;
     }
     w = (unsigned char *) malloc((size_t) n * n + 1);
